@@ -13,7 +13,7 @@ NAMESPACE = 'Props.C13'
 LEAN_CONE = ['PncModel.Words', 'PncModel.Camx.Uamiv', 'PncModel.Camx.Slab', 'PncModel.Camx.SlabRead', 'PncProofs.WordsLemmas', 'PncProofs.SlabLemmas', 'PncProofs.SlabReadLemmas',
              'PncProofs.BridgeLemmas', 'PncProofs.C13']
 LEMMA_FILES = ['PncProofs/SlabLemmas.lean', 'PncProofs/BridgeLemmas.lean', 'PncProofs/SlabReadLemmas.lean']
-REQUIRED_THEOREMS = ['chunk_records', 'leading_eq', 'mm_decode_encode', 'single_step_rejected', 'read_decode_encode', 'readers_agree']
+REQUIRED_THEOREMS = ['chunk_records', 'leading_eq', 'mm_decode_encode', 'single_step_rejected', 'read_decode_encode', 'readers_agree', 'read_temp_decode_encode', 'readers_agree_temperature']
 RULE = ('wind files (both time-header variants, 1-9 time steps) and files of the formats that have both reader families and a uniform layout (one3d, humidity, vertical '
         'diffusivity, temperature, height/pressure: 2-4 steps, 1-3 layers, 1-4 rows and columns, hour steps of 1 or 3 '
         'incl. midnight and year-end starts, also 6, 12 and 24 hour steps over up to 6 steps (several midnights), readers called with and without rows/columns, any float32 payload; gridded average files in the domain of the record '
@@ -22,10 +22,10 @@ RULE = ('wind files (both time-header variants, 1-9 time steps) and files of the
         'flags where both define them) are compared with the Lean reader model and with each other; non-trivial = at '
         'least two of nz, ny*nx, nt differ from each other and from 1')
 ASSUMPTIONS = ['wind: layout (Lean encoder) and both readers are compared with the encoded content; its reader inference is not modelled; grids of at least 4 cells (records of 4, 8 or 12 bytes are indistinguishable from the closing / header records)',
-               'record readers: the one3d family and height/pressure are modelled (SlabRead.lean: layer count, step, end search, '
+               'record readers: the one3d family, height/pressure and temperature are modelled (SlabRead.lean: layer count, step, end search / last record, '
                'timerange, record positions over integer HHMM arithmetic) and proved to present the written content on regular time '
-               'axes (read_decode_encode, readers_agree); Python float division int(a/b) is taken to equal integer truncating division '
-               'for these magnitudes; the temperature, wind and uamiv record readers are compared, not modelled',
+               'axes (read_decode_encode, readers_agree, read_temp_decode_encode, readers_agree_temperature); Python float division int(a/b) and a//b are taken to equal integer truncating / floor division '
+               'for these magnitudes; the wind and uamiv record readers are compared, not modelled',
                'uamiv record reader: only AVERAGE/INSTANT files with an odd hour step within one day and every count >= 2 (see DESIGN 0.5)']
 MIN_NONTRIVIAL = {'quick': 40, 'thorough': 400}
 NPROC = {'quick': 4, 'thorough': 12}
@@ -49,7 +49,7 @@ def gen(rng, tier):
             c['family'] = 'slab'
             # both reader families accept a call without rows and columns for these formats
             c['noshape'] = c['fmt'] != 'height_pressure' and rng.random() < 0.25
-            if i % 15 == 2 and S.FORMATS[c['fmt']][0] != 'temperature' and len(c['flags']) >= 3:
+            if i % 15 in (2, 6) and len(c['flags']) >= 3:
                 # outside the property's domain, inside the model's: an irregular time axis (the record readers
                 # extrapolate the first step); only the record reader is compared with its Lean model here
                 fl = [list(x) for x in c['flags']]
@@ -179,9 +179,7 @@ def _agree_read_model(case, res, irregular):
     """the record readers of the one3d family and of height/pressure files against their own Lean model
     (time arithmetic: layer count, step, end search, timerange, record positions)"""
     kind = S.FORMATS[case['fmt']][0]
-    if kind not in ('one3d', 'height_pressure'):
-        return None
-    rd = lib.run_model(['bin slab-rd %d %s' % (1 if kind == 'height_pressure' else 0, res['hex'])])[0]
+    rd = lib.run_model(['bin slab-rd %d %s' % ({'one3d': 0, 'height_pressure': 1, 'temperature': 2}[kind], res['hex'])])[0]
     r = res['read']
     if 'err' in r:
         if irregular and rd.startswith('err'):
